@@ -145,6 +145,13 @@ class PCall:
         self._sim_ev.ev("call")
         return self._sim_fn(*a, **kw)
 
+    def __getattr__(self, name):
+        # the sandbox asks a callable for these two documented markers before calling it; a proxy / lazy object
+        # may fail right there, and that failure is the data's exception like any other
+        if name in ("unsafe_callable", "alters_data"):
+            self._sim_ev.ev("safety-probe")
+        raise AttributeError(name)
+
 
 class PStr:
     """String-like data object (not a str): conversion, length, iteration, comparison are events."""
